@@ -212,6 +212,7 @@ def gen_random(rng):
     if rng.random() < 0.1 and not permuted:
         # what a row knows about its place in the input is a sort key like any other (it restarts with every file)
         args = [a for a in args] + ["--sort-by", rng.choice(["&index-in-file", "&index-in-file=DESC", "&index DESC", "(% &index 3)", "&index-in-file asc"])]
+        unit["args"] = args
     if rng.random() < 0.3 or "&index-in-file" in " ".join(args):
         texts = [jm.dumps(r).encode() for r in recs]
         nf = rng.choice((1, 2, 2, 3))
